@@ -25,6 +25,7 @@ import (
 	"crypto/ed25519"
 	"crypto/sha256"
 	"encoding/binary"
+	"encoding/json"
 	"fmt"
 	"io"
 	"net"
@@ -34,6 +35,7 @@ import (
 	"strings"
 	"time"
 
+	"github.com/BurntSushi/toml"
 	zmq "github.com/pebbe/zmq4"
 	"github.com/refraction-networking/conjure/pkg/core"
 	"github.com/refraction-networking/conjure/pkg/core/interfaces"
@@ -79,6 +81,26 @@ type C12OvrSubnet struct {
 	PrefixID  int     `json:"prefix_id"`
 }
 
+// C12Excl is one excluded_subnet_from_overrides entry, written the way an operator writes it: the
+// cidr alone, or (as in the sample reg_config.toml) together with weight / port / transport keys that
+// the registrar reserves "for future features" and that do not change what the entry excludes.
+type C12Excl struct {
+	CIDR      string   `json:"cidr"`
+	Weight    *float64 `json:"weight,omitempty"`
+	Port      *uint32  `json:"port,omitempty"`
+	Transport *string  `json:"transport,omitempty"`
+}
+
+// UnmarshalJSON also accepts a bare CIDR string (replay files written before labels were generated).
+func (x *C12Excl) UnmarshalJSON(b []byte) error {
+	if len(b) > 0 && b[0] == '"' {
+		*x = C12Excl{}
+		return json.Unmarshal(b, &x.CIDR)
+	}
+	type plain C12Excl
+	return json.Unmarshal(b, (*plain)(x))
+}
+
 // C12ParamOvr is one member of the registrar's parameter override set.
 type C12ParamOvr struct {
 	Kind    string `json:"kind"`               // rand | fixed | file
@@ -93,7 +115,7 @@ type C12Registrar struct {
 	ParamOvr   []C12ParamOvr  `json:"param_overrides"`
 	Enforce    bool           `json:"enforce_subnet_overrides"`
 	Subnets    []C12OvrSubnet `json:"override_subnets"`
-	Exclusions []string       `json:"exclusions"`
+	Exclusions []C12Excl      `json:"exclusions"`
 	PctMin     float64        `json:"pct_min"`
 	PctPrefix  float64        `json:"pct_prefix"`
 }
@@ -335,6 +357,27 @@ func c12GenOvrSubnet(rt *rapid.T, pool []string) C12OvrSubnet {
 	return s
 }
 
+// c12GenExcl draws an exclusion entry: unlabelled (cidr only), written like the sample configuration
+// (weight, port and a transport label), or partially labelled; labels are the ones the configuration
+// format uses for override subnets, occasionally another string.
+func c12GenExcl(rt *rapid.T) C12Excl {
+	x := C12Excl{CIDR: rapid.SampledFrom(c12ExPool).Draw(rt, "excl")}
+	label := func() {
+		t := rapid.SampledFrom([]string{"Min_Transport", "Min_Transport", "Min_Transport", "Prefix_Transport", "Prefix_Transport", "Prefix_Transport", "Obfs4_Transport", "Min", "Prefix", ""}).Draw(rt, "excl_transport")
+		x.Transport = &t
+	}
+	switch rapid.SampledFrom([]string{"bare", "bare", "sample", "sample", "sample", "label"}).Draw(rt, "excl_shape") {
+	case "sample":
+		w := rapid.SampledFrom([]float64{28.7, 1, 0, 10}).Draw(rt, "excl_weight")
+		pt := rapid.SampledFrom(c12CfgPorts).Draw(rt, "excl_port")
+		x.Weight, x.Port = &w, &pt
+		label()
+	case "label":
+		label()
+	}
+	return x
+}
+
 func c12GenRegistrar(rt *rapid.T) C12Registrar {
 	r := C12Registrar{
 		Auth:     rapid.Bool().Draw(rt, "auth"),
@@ -352,7 +395,7 @@ func c12GenRegistrar(rt *rapid.T) C12Registrar {
 	}
 	ne := rapid.SampledFrom([]int{0, 0, 1, 1, 2, 3}).Draw(rt, "n_excl")
 	for i := 0; i < ne; i++ {
-		r.Exclusions = append(r.Exclusions, rapid.SampledFrom(c12ExPool).Draw(rt, "excl"))
+		r.Exclusions = append(r.Exclusions, c12GenExcl(rt))
 	}
 	return r
 }
@@ -554,7 +597,12 @@ func C12GenUsage(rt *rapid.T) C12UsageCase {
 	}
 	r.Subnets = rapid.Permutation(r.Subnets).Draw(rt, "order")
 	if rapid.Bool().Draw(rt, "unrelated_exclusion") {
-		r.Exclusions = []string{"8.8.8.0/24"}
+		t := rapid.SampledFrom([]string{"", "Min_Transport", "Prefix_Transport"}).Draw(rt, "unrelated_exclusion_label")
+		x := C12Excl{CIDR: "8.8.8.0/24"}
+		if t != "" {
+			x.Transport = &t
+		}
+		r.Exclusions = []C12Excl{x}
 	}
 	u.Reg = r
 	return u
@@ -690,13 +738,63 @@ type c12Net struct {
 	src C12OvrSubnet
 }
 
+type c12ExNet struct {
+	*net.IPNet
+	src C12Excl
+}
+
+// c12RegConf has the override-related keys of cmd/registration-server's config struct, with the same
+// toml tags and element type, so the generated configuration is decoded by the same code path
+// (BurntSushi/toml -> regprocessor.Subnet / Ipnet.UnmarshalText) as a real reg_config.toml.
+type c12RegConf struct {
+	EnforceSubnetOverrides    bool     `toml:"enforce_subnet_overrides"`
+	PrcntMinRegsToOverride    float64  `toml:"prcnt_min_regs_to_override"`
+	PrcntPrefixRegsToOverride float64  `toml:"prcnt_prefix_regs_to_override"`
+	OverrideSubnets           []Subnet `toml:"override_subnet"`
+	ExclusionsFromOverride    []Subnet `toml:"excluded_subnet_from_overrides"`
+}
+
+func c12Float(f float64) string {
+	s := fmt.Sprintf("%g", f)
+	if !strings.ContainsAny(s, ".e") {
+		s += ".0"
+	}
+	return s
+}
+
+// C12RegConfigTOML renders the override part of a registrar configuration in the format of
+// cmd/registration-server/reg_config.toml.
+func C12RegConfigTOML(r C12Registrar) string {
+	var sb strings.Builder
+	fmt.Fprintf(&sb, "enforce_subnet_overrides = %v\nprcnt_min_regs_to_override = %s\nprcnt_prefix_regs_to_override = %s\n", r.Enforce, c12Float(r.PctMin), c12Float(r.PctPrefix))
+	for _, s := range r.Subnets {
+		fmt.Fprintf(&sb, "\n[[override_subnet]]\ncidr = %q\nweight = %s\nport = %d\ntransport = %q\n", s.CIDR, c12Float(s.Weight), s.Port, s.Transport)
+		if s.Transport == "Prefix_Transport" || s.PrefixID != 0 {
+			fmt.Fprintf(&sb, "prefix_id = %d\n", s.PrefixID)
+		}
+	}
+	for _, x := range r.Exclusions {
+		fmt.Fprintf(&sb, "\n[[excluded_subnet_from_overrides]]\ncidr = %q\n", x.CIDR)
+		if x.Weight != nil {
+			fmt.Fprintf(&sb, "weight = %s\n", c12Float(*x.Weight))
+		}
+		if x.Port != nil {
+			fmt.Fprintf(&sb, "port = %d\n", *x.Port)
+		}
+		if x.Transport != nil {
+			fmt.Fprintf(&sb, "transport = %q\n", *x.Transport)
+		}
+	}
+	return sb.String()
+}
+
 // C12Proc is a RegProcessor built from a C12Registrar together with what the oracle needs.
 type C12Proc struct {
 	RP     *RegProcessor
 	Sender *C12Sender
 	Pub    ed25519.PublicKey
 	ovr    []c12Net
-	excl   []*net.IPNet
+	excl   []c12ExNet
 	sel    *phantoms.PhantomIPSelector
 }
 
@@ -708,22 +806,36 @@ func C12NewProc(e *C12Env, r C12Registrar, sel *phantoms.PhantomIPSelector) (*C1
 	}
 	priv := ed25519.NewKeyFromSeed(r.KeySeed)
 	pr := &C12Proc{Sender: &C12Sender{}, Pub: priv.Public().(ed25519.PublicKey), sel: sel}
-	var subnets, excl []Subnet
-	for _, s := range r.Subnets {
-		var n Ipnet
-		if err := n.UnmarshalText([]byte(s.CIDR)); err != nil {
+	// the configuration goes through the registrar's own decoding path
+	var conf c12RegConf
+	doc := C12RegConfigTOML(r)
+	if _, err := toml.Decode(doc, &conf); err != nil {
+		return nil, fmt.Errorf("generated reg_config does not decode: %v\n%s", err, doc)
+	}
+	if len(conf.OverrideSubnets) != len(r.Subnets) || len(conf.ExclusionsFromOverride) != len(r.Exclusions) {
+		return nil, fmt.Errorf("generated reg_config decoded to %d override subnets / %d exclusions, want %d / %d", len(conf.OverrideSubnets), len(conf.ExclusionsFromOverride), len(r.Subnets), len(r.Exclusions))
+	}
+	subnets, excl := conf.OverrideSubnets, conf.ExclusionsFromOverride
+	for i, s := range r.Subnets {
+		if subnets[i].CIDR.IPNet == nil || subnets[i].Transport != s.Transport || subnets[i].Weight != s.Weight || subnets[i].Port != s.Port || int(subnets[i].PrefixId) != s.PrefixID {
+			return nil, fmt.Errorf("override subnet %d decoded as %+v, generated %+v", i, subnets[i], s)
+		}
+		// the oracle's view of the subnet is parsed independently of the registrar's decoder
+		_, n, err := net.ParseCIDR(s.CIDR)
+		if err != nil {
 			return nil, fmt.Errorf("override subnet %q: %v", s.CIDR, err)
 		}
-		subnets = append(subnets, Subnet{CIDR: n, Weight: s.Weight, Port: s.Port, Transport: s.Transport, PrefixId: prefix.PrefixID(s.PrefixID)})
-		pr.ovr = append(pr.ovr, c12Net{IPNet: n.IPNet, src: s})
+		pr.ovr = append(pr.ovr, c12Net{IPNet: n, src: s})
 	}
-	for _, x := range r.Exclusions {
-		var n Ipnet
-		if err := n.UnmarshalText([]byte(x)); err != nil {
-			return nil, fmt.Errorf("exclusion %q: %v", x, err)
+	for i, x := range r.Exclusions {
+		if excl[i].CIDR.IPNet == nil {
+			return nil, fmt.Errorf("exclusion %d decoded without a cidr", i)
 		}
-		excl = append(excl, Subnet{CIDR: n})
-		pr.excl = append(pr.excl, n.IPNet)
+		_, n, err := net.ParseCIDR(x.CIDR)
+		if err != nil {
+			return nil, fmt.Errorf("exclusion %q: %v", x.CIDR, err)
+		}
+		pr.excl = append(pr.excl, c12ExNet{IPNet: n, src: x})
 	}
 	var ovr []interfaces.RegOverride
 	for _, o := range r.ParamOvr {
@@ -751,7 +863,7 @@ func C12NewProc(e *C12Env, r C12Registrar, sel *phantoms.PhantomIPSelector) (*C1
 		regOverrides = interfaces.Overrides(ovr)
 	}
 	// --- from here on: the body of newRegProcessor / NewRegProcessorNoAuth -----------------------
-	pMin, pPre := validateOverridePercentages(r.PctMin, r.PctPrefix)
+	pMin, pPre := validateOverridePercentages(conf.PrcntMinRegsToOverride, conf.PrcntPrefixRegsToOverride)
 	minS, preS := splitOverrideSubnets(subnets)
 	rp := &RegProcessor{
 		ipSelector:                             sel,
@@ -760,7 +872,7 @@ func C12NewProc(e *C12Env, r C12Registrar, sel *phantoms.PhantomIPSelector) (*C1
 		transports:                             make(map[pb.TransportType]lib.Transport),
 		authenticated:                          r.Auth,
 		regOverrides:                           regOverrides,
-		enforceSubnetOverrides:                 r.Enforce,
+		enforceSubnetOverrides:                 conf.EnforceSubnetOverrides,
 		minOverrideSubnets:                     minS,
 		prefixOverrideSubnets:                  preS,
 		minOverrideSubnetsCumulativeWeights:    processOverrideSubnetsWeights(minS),
@@ -1260,10 +1372,45 @@ func C12Run(e *C12Env, c C12Case, entry C12Entry) (res C12Result) {
 			return
 		}
 		if got.Equal(orig) {
+			// Which exclusions cover the original, and was an exclusion the only thing standing
+			// between this registration and a certain override (enforced, 100 %, a weighted
+			// subnet configured for the transport, overrides not disabled for Prefix)?
+			certain := c.Reg.Enforce && tname != "" && !(tt == pb.TransportType_Prefix && disabled)
+			if certain {
+				pct := c.Reg.PctMin
+				if tt == pb.TransportType_Prefix {
+					pct = c.Reg.PctPrefix
+				}
+				has := false
+				for _, n := range pr.ovr {
+					if n.src.Transport == tname && n.src.Weight > 0 && n.IP.To4() != nil {
+						has = true
+					}
+				}
+				certain = pct == 100 && has
+			}
+			seen := map[string]bool{}
 			for _, x := range pr.excl {
-				if x.Contains(orig) {
-					res.class("original-in-exclusion")
-					break
+				if !x.Contains(orig) {
+					continue
+				}
+				kind := "unlabelled"
+				if x.src.Transport != nil && *x.src.Transport != "" {
+					kind = "labelled-other-transport"
+					if *x.src.Transport == tname {
+						kind = "labelled-own-transport"
+					}
+				}
+				seen[kind] = true
+			}
+			if len(seen) > 0 {
+				res.class("original-in-exclusion")
+			}
+			for k := range seen {
+				res.class("original-in-exclusion:" + k)
+				// decisive only when every covering exclusion is of this one kind
+				if certain && len(seen) == 1 {
+					res.class("exclusion-decisive:" + k)
 				}
 			}
 			return
@@ -1287,7 +1434,11 @@ func C12Run(e *C12Env, c C12Case, entry C12Entry) (res C12Result) {
 		}
 		for _, x := range pr.excl {
 			if x.Contains(orig) {
-				res.bad("substitute:excluded-original", "%s phantom %v lies in excluded subnet %v but was replaced by %v", fam, orig, x, got)
+				lbl := "no transport label"
+				if x.src.Transport != nil {
+					lbl = fmt.Sprintf("transport label %q", *x.src.Transport)
+				}
+				res.bad("substitute:excluded-original", "%s phantom %v of a %v registration lies in excluded subnet %v (%s) but was replaced by %v", fam, orig, tt, x.IPNet, lbl, got)
 				break
 			}
 		}
